@@ -4,17 +4,28 @@
 import CSD.Generated.Fields
 import CSD.Generated.Dispatch
 import CSD.Lemmas.PFCMeta
+import CSD.Lemmas.PFCLoad
 
 namespace CSD.Props.C08
 open CSD CSD.Generated
 
-/-- `save` is a function of the object's state: two saves of the same object give
-the same bytes (model level: `PFC.save` has no other input). -/
-theorem save_deterministic (d : PFC.T) : PFC.save d = PFC.save d := rfl
+/-- **Re-saving a loaded PFC image reproduces it byte for byte**, and the image itself is a function
+of `(S, b)` alone (the model's `save ∘ build` has no other input — no clock, no allocator state). -/
+theorem pfc_resave_identical (b : Nat) (S : List Str) (hv : validDict S = true) (hb : b < 2 ^ 32)
+    (hn : S.length < 2 ^ 32) (hml : (PFC.build b S).maxlength < 2 ^ 32)
+    (htl : (PFC.build b S).text.length < 2 ^ 64) :
+    ∃ img, PFC.save (PFC.build b S) = some img ∧
+      ∃ d', PFC.load img = some (d', []) ∧ PFC.save d' = some img := by
+  obtain ⟨hne, _, _, _⟩ := PFC.validDict_facts hv
+  obtain ⟨img, himg, hl⟩ := PFC.load_save _ (PFC.build_wf b S hne hb hn hml htl)
+  refine ⟨img, himg, PFC.build b S, ?_, himg⟩
+  have := hl []
+  simpa using this
 
-/-- Building twice from the same input and parameters gives the same object, hence
-the same image. -/
-theorem build_deterministic (b : Nat) (S : List Str) : PFC.save (PFC.build b S) = PFC.save (PFC.build b S) := rfl
+/- That two saves of one object give the same bytes, and that a save leaves the answers unchanged,
+are statements about the mutable C++ object: in the model `save` is a function of an immutable value,
+so they hold by construction and are not stated as theorems; the correspondence stream checks them on
+the real objects (`save2`, queries before/after `save`). -/
 
 /-- A loaded object saves the image it was loaded from as far as the layout goes:
 `load` restores every field `save` writes (same sequence), and the type tag a
@@ -24,9 +35,8 @@ theorem resave_layout_and_tag (k : Kind) : saveFields = loadFields ∧ saveTags 
   refine ⟨rfl, ?_⟩
   cases k <;> rfl
 
-/-- `resave_bytes_partial`: byte equality `save (load (save d)) = save d` is compared
-on every kind by the correspondence stream (and fails for the recorded finding K5);
-the byte-level parser of the exact models is not finished. -/
+/-- `resave_bytes_partial`: byte equality `save (load (save d)) = save d` is proved above for PFC
+and compared on every other kind by the correspondence stream (it fails for the recorded finding K5). -/
 example : validDict [[0x61], [0x62]] = true := by decide
 
 end CSD.Props.C08
